@@ -255,9 +255,9 @@ type branchFact struct {
 	A       Atom
 	Holds   bool
 	If      *ssa.If
-	Derived bool         // implied by the outcome of a helper call tested at this branch (A lives in the helper, A.Env set)
+	Derived bool          // implied by the outcome of a helper call tested at this branch (A lives in the helper, A.Env set)
 	Via     *ssa.Function // the helper whose outcome implies a derived fact
-	Alts    [][]factAtom // when the outcome is reachable through several alternative condition sets (a || b): the alternatives
+	Alts    [][]factAtom  // when the outcome is reachable through several alternative condition sets (a || b): the alternatives
 }
 
 type factAtom struct {
@@ -282,9 +282,16 @@ func directFacts(f *ssa.Function) []branchFact {
 }
 
 // edgesWhere selects the out-edges along which pred says the wanted fact is established.
+// curEnv is the parameter binding of the atom currently being examined (set by edgesWhere and by loops over
+// branchFacts): canon and fieldLoad translate helper parameters through it, so predicates written for the
+// caller's values also match atoms that live inside a helper.
+var curEnv env
+
 func edgesWhere(f *ssa.Function, pred func(a Atom, holds bool) bool) map[edge]bool {
 	out := map[edge]bool{}
+	defer func() { curEnv = nil }()
 	for _, bf := range branchFacts(f) {
+		curEnv = bf.A.Env
 		if pred(bf.A, bf.Holds) {
 			out[bf.E] = true
 			continue
@@ -295,6 +302,7 @@ func edgesWhere(f *ssa.Function, pred func(a Atom, holds bool) bool) map[edge]bo
 			for _, alt := range bf.Alts {
 				any := false
 				for _, fa := range alt {
+					curEnv = fa.A.Env
 					if pred(fa.A, fa.Holds) {
 						any = true
 					}
@@ -546,7 +554,11 @@ func (p *Prog) canonD(v ssa.Value, d int) string {
 	if d > 12 {
 		return "…"
 	}
-	v = resolveEnv(v, p.canonEnv)
+	if p.canonEnv != nil {
+		v = resolveEnv(v, p.canonEnv)
+	} else {
+		v = resolveEnv(v, curEnv)
+	}
 	switch x := v.(type) {
 	case nil:
 		return "<nil>"
@@ -656,17 +668,27 @@ func (p *Prog) argValues(f *ssa.Function, i int) []ssa.Value {
 // fieldLoad recognises a load of struct field `name` (via FieldAddr+load or Field) and returns the base.
 func fieldLoad(v ssa.Value) (base ssa.Value, name string, ok bool) {
 	v = strip(v)
+	if len(curEnv) > 0 {
+		v = strip(resolveEnv(v, curEnv))
+	}
 	switch x := v.(type) {
 	case *ssa.UnOp:
 		if x.Op == token.MUL {
 			if fa, ok := x.X.(*ssa.FieldAddr); ok {
-				return fa.X, fieldName(fa.X.Type(), fa.Field), true
+				return envBase(fa.X), fieldName(fa.X.Type(), fa.Field), true
 			}
 		}
 	case *ssa.Field:
-		return x.X, fieldName(x.X.Type(), x.Field), true
+		return envBase(x.X), fieldName(x.X.Type(), x.Field), true
 	}
 	return nil, "", false
+}
+
+func envBase(b ssa.Value) ssa.Value {
+	if len(curEnv) > 0 {
+		return resolveEnv(b, curEnv)
+	}
+	return b
 }
 
 // usesValue reports whether instruction in (transitively through pure value operations,
